@@ -49,7 +49,7 @@ Inductive g_argsep : list token -> Prop :=
   | ga_comma_and c a : tid c = TComma -> tid a = TAnd -> g_argsep [c; a].
 
 Inductive g_nsp : list token -> primary -> Prop :=            (* primary without subscript *)
-  | gn_pronoun t : tid t = TPronoun -> g_nsp [t] (PIdent IPronoun (trange t))
+  | gn_pronoun t r : tid t = TPronoun -> g_nsp [t] (PIdent IPronoun r)
   | gn_var tn n r : g_var tn n -> g_nsp tn (PIdent (IVar n) r)
   | gn_call tn n r t targs args :
       g_var tn n -> tid t = TTaking -> g_args targs args -> g_nsp (tn ++ [t] ++ targs) (PCall n r args)
@@ -85,3 +85,134 @@ with g_list : nat -> list token -> list expr -> Prop :=
 with g_args : list token -> list expr -> Prop :=
   | gargs_one te e : g 1 te e -> g_args te [e]
   | gargs_snoc ts l tsep te e : g_args ts l -> g_argsep tsep -> g 1 te e -> g_args (ts ++ tsep ++ te) (l ++ [e]).
+
+(** * Statements and blocks *)
+
+Definition lhs_primary (l : lhs) : primary :=
+  match l with LIdent i r => PIdent i r | LSubscript a s => PSubscript a s end.
+Definition g_lhs (ts : list token) (l : lhs) : Prop := g_primary ts (lhs_primary l).
+
+Inductive g_ident : list token -> ident -> Prop :=
+  | gi_var ts n : g_var ts n -> g_ident ts (IVar n)
+  | gi_pronoun t : tid t = TPronoun -> g_ident [t] IPronoun.
+
+(** end of a statement: an optional , or . and a line break (absent only at the end of the input,
+    or after the if/else that ends a function body) *)
+Inductive g_eol : list token -> Prop :=
+  | ge_none : g_eol []
+  | ge_sep s : is_one_of [TComma; TDot] s = true -> g_eol [s]
+  | ge_nl n : tid n = TNewline -> g_eol [n]
+  | ge_sep_nl s n : is_one_of [TComma; TDot] s = true -> tid n = TNewline -> g_eol [s; n].
+
+(** the words of a poetic number literal, left to right *)
+Inductive g_poetic : list token -> list pelem -> Prop :=
+  | gq_nil : g_poetic [] []
+  | gq_comma ts el t : g_poetic ts el -> tid t = TComma -> g_poetic (ts ++ [t]) el
+  | gq_dot ts el t : g_poetic ts el -> tid t = TDot -> g_poetic (ts ++ [t]) (el ++ [PEDot])
+  | gq_suffix ts el t :
+      g_poetic ts el -> (tid t = TApostropheS \/ tid t = TApostropheRE) -> g_poetic (ts ++ [t]) (el ++ [PESuffix (tspell t)])
+  | gq_hyphen ts el t nt :
+      g_poetic ts el -> is_minus_hyphen t = true -> is_word (tspell nt) = true ->
+      g_poetic (ts ++ [t; nt]) (el ++ [PESuffix (lit "-" ++ tspell nt)])
+  | gq_word ts el t :
+      g_poetic ts el -> is_poetic_number_literal_token t = true -> g_poetic (ts ++ [t]) (el ++ [PEWord (tspell t)]).
+
+(** parameters of a function definition: names separated like arguments *)
+Inductive g_params : list token -> list (varname * range) -> Prop :=
+  | gpar_one tn n r : g_var tn n -> g_params tn [(n, r)]
+  | gpar_snoc ts l tsep tn n r : g_params ts l -> g_argsep tsep -> g_var tn n -> g_params (ts ++ tsep ++ tn) (l ++ [(n, r)]).
+
+(** optional pieces *)
+Definition g_opt_tok (m : token -> bool) (ts : list token) : Prop := ts = [] \/ exists t, ts = [t] /\ m t = true.
+
+Inductive g_stmt : list token -> stmt -> Prop :=
+  | gs_put t te e ti tl d :
+      tid t = TPut -> g 5 te e -> tid ti = TInto -> g_lhs tl d ->
+      g_stmt ([t] ++ te ++ [ti] ++ tl) (SAssign d e [] None)
+  | gs_let t tl d tb top op tf f trest rest :
+      tid t = TLet -> g_lhs tl d -> tid tb = TBe ->
+      (top = [] /\ op = None \/
+       exists o x, top = [x] /\ op = Some o /\ is_one_of [TPlus; TWith; TMinus; TMultiply; TDivide] x = true /\
+                   get_binary_operator (tid x) = Some o) ->
+      g 5 tf f -> g_list 5 trest rest ->
+      g_stmt ([t] ++ tl ++ [tb] ++ top ++ tf ++ trest) (SAssign d f rest op)
+  | gs_poetic_expr tl d t te e :
+      g_lhs tl d -> is_one_of [TIs; TApostropheS; TApostropheRE] t = true -> g 5 te e ->
+      g_stmt (tl ++ [t] ++ te) (SPoeticNum d (PNExpr e))
+  | gs_poetic_lit tl d t tp el :
+      g_lhs tl d -> is_one_of [TIs; TApostropheS; TApostropheRE] t = true -> g_poetic tp el -> el <> [] ->
+      g_stmt (tl ++ [t] ++ tp) (SPoeticNum d (PNLit el))
+  | gs_poetic_str tl d t tany txt :
+      g_lhs tl d -> is_one_of [TSays; TSay] t = true -> Forall (fun x => tid x <> TNewline) tany ->
+      g_stmt (tl ++ [t] ++ tany) (SPoeticStr d txt)
+  | gs_call tn n r t targs args :
+      g_var tn n -> tid t = TTaking -> g_args targs args -> g_stmt (tn ++ [t] ++ targs) (SCall n r args)
+  | gs_function tn n r t tparams params teol tbody body :
+      g_var tn n -> tid t = TTakes -> g_params tparams params -> g_eol teol -> g_block tbody body ->
+      g_stmt (tn ++ [t] ++ tparams ++ teol ++ tbody) (SFunction n r params body)
+  | gs_if t tc c teol tthen th telse el :
+      tid t = TIf -> g 5 tc c -> g_eol teol -> g_block tthen th ->
+      (telse = [] /\ el = None \/
+       exists x tnl tb b, telse = [x] ++ tnl ++ tb /\ tid x = TElse /\ g_opt_tok (is_id TNewline) tnl /\
+                          g_block tb b /\ el = Some b) ->
+      g_stmt ([t] ++ tc ++ teol ++ tthen ++ telse) (SIf c th el)
+  | gs_while t tc c teol tb b :
+      tid t = TWhile -> g 5 tc c -> g_eol teol -> g_block tb b -> g_stmt ([t] ++ tc ++ teol ++ tb) (SWhile c b)
+  | gs_until t tc c teol tb b :
+      tid t = TUntil -> g 5 tc c -> g_eol teol -> g_block tb b -> g_stmt ([t] ++ tc ++ teol ++ tb) (SUntil c b)
+  | gs_build t ti i r tu more :
+      tid t = TBuild -> g_ident ti i -> tid tu = TUp ->
+      Forall (fun x => tid x = TComma \/ tid x = TUp) more ->
+      g_stmt ([t] ++ ti ++ [tu] ++ more) (SInc i r (1 + Z.of_nat (length (filter (is_id TUp) more))))
+  | gs_knock t ti i r tu more :
+      tid t = TKnock -> g_ident ti i -> tid tu = TDown ->
+      Forall (fun x => tid x = TComma \/ tid x = TDown) more ->
+      g_stmt ([t] ++ ti ++ [tu] ++ more) (SDec i r (1 + Z.of_nat (length (filter (is_id TDown) more))))
+  | gs_say t te e : is_one_of [TSay; TSayAlias] t = true -> g 5 te e -> g_stmt ([t] ++ te) (SOutput e)
+  | gs_listen t l : tid t = TListen -> g_stmt [t] (SInput None l)
+  | gs_listen_to t tt tl d l : tid t = TListen -> tid tt = TTo -> g_lhs tl d -> g_stmt ([t; tt] ++ tl) (SInput (Some d) l)
+  | gs_mutation t op tp p tinto dest twith param :
+      is_one_of [TCut; TJoin; TCast] t = true -> get_mutation_operator (tid t) = Some op -> g_primary tp p ->
+      (tinto = [] /\ dest = None \/ exists x tl d, tinto = [x] ++ tl /\ tid x = TInto /\ g_lhs tl d /\ dest = Some d) ->
+      (twith = [] /\ param = None \/ exists x te e, twith = [x] ++ te /\ tid x = TWith /\ g 5 te e /\ param = Some e) ->
+      g_stmt ([t] ++ tp ++ tinto ++ twith) (SMutation op p dest param)
+  | gs_round_before t td d te e :
+      tid t = TTurn -> is_one_of [TUp; TDown; TRound] td = true -> get_rounding_direction (tid td) = Some d -> g 5 te e ->
+      g_stmt ([t; td] ++ te) (SRounding d e)
+  | gs_round_after t te e td d :
+      tid t = TTurn -> g 5 te e -> is_one_of [TUp; TDown; TRound] td = true -> get_rounding_direction (tid td) = Some d ->
+      g_stmt ([t] ++ te ++ [td]) (SRounding d e)
+  | gs_break t r : tid t = TBreak -> g_stmt [t] (SBreak r)
+  | gs_break_it_down t ti td r : tid t = TBreak -> tid td = TDown -> g_stmt [t; ti; td] (SBreak r)
+  | gs_continue t r : tid t = TContinue -> g_stmt [t] (SContinue r)
+  | gs_take_it_to_the_top t t2 t3 t4 t5 r :
+      tid t = TTake -> tid t3 = TTo -> tid t5 = TTop -> g_stmt [t; t2; t3; t4; t5] (SContinue r)
+  | gs_rock t tp p : tid t = TRock -> g_primary tp p -> g_stmt ([t] ++ tp) (SPush p None)
+  | gs_rock_with t tp p tw tf f trest rest :
+      tid t = TRock -> g_primary tp p -> tid tw = TWith -> g 5 tf f -> g_list 5 trest rest ->
+      g_stmt ([t] ++ tp ++ [tw] ++ tf ++ trest) (SPush p (Some (PushList f rest)))
+  | gs_rock_like t tp p tl tq el :
+      tid t = TRock -> g_primary tp p -> tid tl = TLike -> g_poetic tq el -> el <> [] ->
+      g_stmt ([t] ++ tp ++ [tl] ++ tq) (SPush p (Some (PushLit el)))
+  | gs_roll t tp p tinto dest :
+      tid t = TRoll -> g_primary tp p ->
+      (tinto = [] /\ dest = None \/ exists x tl d, tinto = [x] ++ tl /\ tid x = TInto /\ g_lhs tl d /\ dest = Some d) ->
+      g_stmt ([t] ++ tp ++ tinto) (SPop p dest)
+  | gs_return t tb1 te e tb2 :
+      tid t = TReturn -> g_opt_tok (is_id TBack) tb1 -> g 5 te e -> g_opt_tok (is_id TBack) tb2 ->
+      g_stmt ([t] ++ tb1 ++ te ++ tb2) (SReturn e)
+
+(** a block: a blank line (an empty block), or statements each followed by its end of line *)
+with g_block : list token -> block -> Prop :=
+  | gb_blank n l : tid n = TNewline -> g_block [n] (BEmpty l)
+  | gb_stmts ts ss l : g_stmts ts ss -> g_block ts (block_new l ss)
+
+with g_stmts : list token -> list stmt -> Prop :=
+  | gss_nil : g_stmts [] []
+  | gss_snoc ts ss tst st teol : g_stmts ts ss -> g_stmt tst st -> g_eol teol -> g_stmts (ts ++ tst ++ teol) (ss ++ [st]).
+
+(** a program: blocks one after the other (empty blocks are dropped from the tree) *)
+Inductive g_program : list token -> program -> Prop :=
+  | gprog_nil : g_program [] []
+  | gprog_snoc ts p tb b :
+      g_program ts p -> g_block tb b -> g_program (ts ++ tb) (if block_is_empty b then p else p ++ [b]).
